@@ -718,13 +718,13 @@ pub fn compress(values: &[FixWord], max_size: u8) -> (Vec<FixWord>, HashMap<FixW
     //
     // Invariant: delta<lower is never a solution.
     // Because delta must be non-negative, we initialize it to zero.
-    let mut lower = FixWord::ZERO;
+    let mut lower = 0_i64;
     // Invariant: delta=upper is always solution.
     // To initialize upper and begin the search we construct a solution that always works: a single
     // interval encompassing the entire slice and the largest delta possible.
     // The distance between two values can be as large as 4096, which doesn't fit in a FixWord.
-    // Distances saturate at the largest FixWord; this doesn't change any comparison below.
-    let distance = |large: FixWord, small: FixWord| FixWord(large.0.saturating_sub(small.0));
+    // Distances and tolerances are therefore computed in 64 bits.
+    let distance = |large: FixWord, small: FixWord| i64::from(large.0) - i64::from(small.0);
     let max_delta = distance(
         *dedup_values.last().unwrap(),
         *dedup_values.first().unwrap(),
@@ -742,7 +742,7 @@ pub fn compress(values: &[FixWord], max_size: u8) -> (Vec<FixWord>, HashMap<FixW
         let mut interval_start = *dedup_values.first().unwrap();
         // The smallest delta such that the candidate solution will be the same.
         // This is the maximum of all gaps that don't start a new interval.
-        let mut delta_lower = FixWord::ZERO;
+        let mut delta_lower = 0_i64;
         // The largest delta such that the candidate solution will be different.
         // This is the minimum of all gaps that start a new interval.
         let mut delta_upper = max_delta;
